@@ -18,6 +18,7 @@ import (
 	"verif/harness/internal/c11"
 	"verif/harness/internal/c12"
 	"verif/harness/internal/c13"
+	"verif/harness/internal/c14"
 	"verif/harness/internal/c19"
 	"verif/harness/internal/c20"
 	"verif/harness/internal/fw"
@@ -31,6 +32,10 @@ func main() {
 	}
 	prop := os.Args[1]
 	switch prop {
+	case "debug-pongcut":
+		_ = logging.SetLogLevel("*", "fatal")
+		debugPongCut()
+		return
 	case "victim-server":
 		_ = logging.SetLogLevel("*", "fatal")
 		victim.ServerMain()
@@ -111,6 +116,9 @@ func main() {
 	case "C11":
 		res.Rule = "error family {plain, pointer-only, marshalable, codec} x value/pointer dynamic forms x failing (un)marshal/codec steps x random registration tables per side (none, same, independent, shared codes) x messages (empty, escapes, control, multi-byte) x shapes {error, (value,error)} x transports {custom, http, ws}; distinct = (tables, spec, shape); non-trivial = the handler returned a non-nil error"
 		err = c11.Run(d, res, *seed, n(3000, 40000), corpus)
+	case "C14":
+		res.Rule = "rounds of a mixed workload on one connection (requests and responses of 1 B..300 kB, notifications, cancels, streams, reverse calls, pings every 2-3 ms on both ends, a reconnect in odd rounds) with seed-driven delays inside every hooked section; per round: every connection's write-lock trace replayed through the model, every wire frame checked; distinct = round (seed); every round is non-trivial"
+		err = c14.Run(d, res, *seed, thorough)
 	case "C19":
 		res.Rule = "exhaustive: 10 default sets x 10 caller sets x {attached, not} x 3 required permissions x 2 method shapes through the real PermissionedProxy, and 14 Authorization header forms x 6 token query forms through the real auth.Handler; every case is distinct and non-trivial (a permission decision is taken)"
 		err = c19.Run(d, res)
